@@ -27,7 +27,7 @@ INFO = {
     "and sha256(json.dumps(table_to_serializable)), the conflict report strings and the ordered list of forest[i].to_str() "
     "on ambiguous inputs must equal those of the first leaf.  In addition the same fingerprint is computed in fresh "
     "interpreters under PYTHONHASHSEED 0..15 (a plain native differential, reported as such).",
-    "bounds": {"quick": {"symbols": "<= 5 user symbols (120 permutations), 4 grammars"}, "thorough": {"symbols": "<= 6 (720 permutations), 8 grammars"}},
+    "bounds": {"quick": {"symbols": "<= 6 user symbols (720 permutations), 6 grammars incl. one with production priorities and one split over imported files"}, "thorough": {"symbols": "<= 6 (720 permutations), 8 grammars"}},
     "outside": "orders that only arise from hash collisions inside one set's table; SipHash itself is not modelled - the "
     "quantifier 'string hash is an arbitrary injective function' is; more than 6 symbols",
     "assumptions": ["module-level `hash` shim in parglare.grammar", "STOP/EMPTY/S' keep the worker process's real hash (workers run under different PYTHONHASHSEEDs)"],
@@ -50,12 +50,36 @@ GRAMMARS = {
     "lex": ("S: S T | T; T: 'a' | 'aa';", ["aaaa", "aaa"]),
     "six": ("S: A B C; A: 'a' | EMPTY; B: 'b' | EMPTY; C: 'c' | A;", ["abc", "c", "a", ""]),
     "three-nt": ("S: A | B; A: C 'x'; B: C 'x'; C: 'c' | EMPTY;", ["cx", "x"]),
+    # production priorities: R/R and S/R resolution walks follow sets (set order must not matter)
+    "priorities": ("S: B 'x' | B 'y' | A 'x' | 't' 'y'; A: 't' {11}; B: 't';", ["tx", "ty"], ["x", "y", "t", "A", "B"]),
+    # two imported files defining a same-named terminal (fqn a.SEP / b.SEP), both look-aheads of one completed item
+    "imports": ({"root.pg": "import 'a.pg';\nimport 'b.pg';\nS: X a.SEP P | X b.SEP Q;\nX: 'x';\nP: 'p';\nQ: 'p';\n",
+                 "a.pg": "terminals\nSEP: ',';\n", "b.pg": "terminals\nSEP: ',';\n"}, ["x,p", "x , p"], ["a.SEP", "b.SEP", "P", "Q", "X"]),
 }
+
+import atexit  # noqa
+import shutil  # noqa
+import tempfile  # noqa
+
+_dirs = []
+atexit.register(lambda: [shutil.rmtree(d, ignore_errors=True) for d in _dirs])
+
+
+def make_grammar(text):
+    """text is grammar text, or a dict of files (root.pg + imports) written to a scratch directory."""
+    if isinstance(text, str):
+        return Grammar.from_string(text)
+    d = tempfile.mkdtemp(prefix="vp-c16-")
+    _dirs.append(d)
+    for name, body in text.items():
+        with open(os.path.join(d, name), "w") as f:
+            f.write(body)
+    return Grammar.from_file(os.path.join(d, "root.pg"))
 
 
 def cases(tier, seed):
     out = []
-    names = ["nullable-AB", "ambig-expr", "dangling", "prop-c03"] if tier == "quick" else list(GRAMMARS)
+    names = ["nullable-AB", "ambig-expr", "dangling", "prop-c03", "priorities", "imports"] if tier == "quick" else list(GRAMMARS)
     for nm in names:
         out.append({"name": "ranks:%s" % nm, "params": {"kind": "ranks", "g": nm}, "budget_s": 3000, "hashseed": len(out)})
         out.append({"name": "seeds:%s" % nm, "params": {"kind": "seeds", "g": nm}})
@@ -64,14 +88,18 @@ def cases(tier, seed):
 
 
 def fingerprint(text, inputs):
-    g = Grammar.from_string(text)
+    g = make_grammar(text)
     fp = {}
     for kind, it in (("LALR", LR_1), ("SLR", LR_0)):
         t = create_table(g, itemset_type=it, prefer_shifts=False, prefer_shifts_over_empty=False)
         fp[kind] = hashlib.sha256(json.dumps(table_to_serializable(t), sort_keys=True).encode()).hexdigest()
         # structural content of the conflict reports (their text also prints follow sets in set order: cosmetic)
         fp[kind + "-conflicts"] = [[type(c).__name__, c.state.state_id, c.term.name, [p.prod_id for p in c.productions]] for c in t.sr_conflicts + t.rr_conflicts]
-    p = GLRParser(Grammar.from_string(text))
+    p = GLRParser(make_grammar(text))
+    for d in _dirs:
+        for fn in os.listdir(d):
+            if fn.endswith(".pgc"):
+                os.remove(os.path.join(d, fn))
     for w in inputs:
         try:
             f = p.parse(w)
@@ -86,14 +114,16 @@ def fingerprint(text, inputs):
 
 
 def symbol_names(text):
-    g = Grammar.from_string(text)
+    g = make_grammar(text)
     names = sorted(n for n in list(g.nonterminals) + list(g.terminals) if n not in ("S'", "STOP", "EMPTY"))
     return names
 
 
 def build(params, symbolic):
-    text, inputs = GRAMMARS[params["g"]]
+    text, inputs = GRAMMARS[params["g"]][:2]
     names = symbol_names(text)
+    if len(GRAMMARS[params["g"]]) > 2:
+        names = [n for n in names if n in GRAMMARS[params["g"]][2]]  # ranks only for these; the others keep their real hash
     k = len(names)
     twin = params.get("twin")
     first = {}
@@ -149,6 +179,9 @@ def build(params, symbolic):
     elif k == 6:
         def h(r0: int, r1: int, r2: int, r3: int, r4: int, r5: int):
             return body([r0, r1, r2, r3, r4, r5])
+    elif k == 7:
+        def h(r0: int, r1: int, r2: int, r3: int, r4: int, r5: int, r6: int):
+            return body([r0, r1, r2, r3, r4, r5, r6])
     else:
         raise AssertionError("unsupported symbol count %d" % k)
     if not symbolic:
@@ -180,8 +213,8 @@ def run_case(params):
     import time
 
     t0 = time.time()
-    text, inputs = GRAMMARS[params["g"]]
-    code = "import sys, json; sys.path.insert(0, %r); from harness.c16 import fingerprint, GRAMMARS; t, i = GRAMMARS[%r]; print(json.dumps(fingerprint(t, i), sort_keys=True))" % (
+    text, inputs = GRAMMARS[params["g"]][:2]
+    code = "import sys, json; sys.path.insert(0, %r); from harness.c16 import fingerprint, GRAMMARS; t, i = GRAMMARS[%r][:2]; print(json.dumps(fingerprint(t, i), sort_keys=True))" % (
         os.path.dirname(os.path.dirname(os.path.abspath(__file__))), params["g"])
     outs = {}
     for seed in range(16):
